@@ -336,8 +336,11 @@ fn pool_cases(r: &mut Rng, batches: usize, thorough: bool, sink: &mut Sink) {
                     if outcome == "ok" { fails.push("batch with a failing element returned ok".into()); }
                     if !outcome.contains(&format!("loco_sim idx:{}", fp)) { fails.push(format!("the error is not reported for the failing element {}: {}", fp, outcome)); }
                     // the failing element carries its own error state: equal to its isolated (failed) walk
-                    if compare(&to_node(&v.0[fp]), &iso[fp].1, Mode::Bits).n_bad > 0 && compare(&to_node(&v.0[fp]), &orig[fp], Mode::Bits).n_bad > 0 {
-                        fails.push(format!("failing element {} is in a state that is neither its own failed walk nor untouched", fp));
+                    // (it is the only failing element and its error is the one reported, so it WAS walked: the serial walk leaves it
+                    // at its failing step with the rows saved so far, and so must every pool)
+                    if compare(&to_node(&v.0[fp]), &iso[fp].1, Mode::Bits).n_bad > 0 {
+                        fails.push(format!("failing element {} is not in the state its own (failed) walk leaves it in{}", fp,
+                            if compare(&to_node(&v.0[fp]), &orig[fp], Mode::Bits).n_bad == 0 { ": it is untouched, although its error was reported" } else { "" }));
                     }
                     if label == "serial" {
                         // try_for_each: exactly the elements before the failing one are walked, later ones untouched
